@@ -35,5 +35,90 @@ SPECS = {
 }
 
 
+def tamper_plan(mode):
+    def plan(tier):
+        return [dict(defs=defs(2), args=dict(mode=mode, bufsz=2, hbufsz=2), nshards=16)]
+    return plan
+
+
+SPECS.update({
+    "C05": dict(
+        harness="ftamper", src=["harness/ftamper.cpp"], plan=tamper_plan("c05"), level="fault_enumeration",
+        rule="base files made by the reference (quick: 30 covering every cipher x hash mode, T in {1,2,4}, 6 sizes; thorough: all 270); on each, EVERY single-bit flip, every byte value at offsets 0..9, "
+             "every truncation, 6 extensions, every one-byte and 16-byte deletion/insertion, every swap of two body blocks / chunks / IV fields (thorough: + header-byte x body-bit pairs); "
+             "one evaluation = verify + decrypt of one modified file; oracle: both fail, or both succeed with exactly the original plaintext; distinct = (modification kind, base file) classes",
+        assumptions=ASSUME_FILE + ["single modifications only (plus the stated pairs); the known finding C05 hdr-byte-8 is matched by its key, any other accepted modification is a violation"]),
+    "C06": dict(
+        harness="ftamper", src=["harness/ftamper.cpp"], plan=tamper_plan("c06"), level="fault_enumeration",
+        rule="base files made by the reference x keys {all 128 single-bit neighbours, all-zero, all-FF, rotated, reversed}; one evaluation = verify + decrypt under the wrong key; "
+             "oracle: both report failure and the output stream holds 0 bytes; distinct = (base file, key class)",
+        assumptions=ASSUME_FILE),
+    "C11": dict(
+        harness="ftamper", src=["harness/ftamper.cpp"], plan=tamper_plan("c11"), level="fault_enumeration",
+        rule="malformed inputs: every truncation of 9 valid files, every length 0..80 of {zeros, FF, valid-prefix+garbage}, every magic prefix length, mode-byte pairs (quick: 11x11 border values; thorough: all 65,536) "
+             "on valid files of all 15 mode combinations, right-magic/wrong-tag files with 7 body lengths, plus a labelled pseudo-random sample (one file per length 0..300, NOT counted as exhaustive); "
+             "one evaluation = verify + decrypt in a forked ASan child; oracle: normal return, success only if the tag is authentic, failed decrypt wrote 0 bytes, successful decrypt wrote <= body bytes",
+        assumptions=ASSUME_FILE + ["files that carry a valid tag but were not produced by encryption are outside the property's domain and are not generated"]),
+    "C12": dict(
+        harness="ftamper", src=["harness/ftamper.cpp"], plan=tamper_plan("c12"), level="fault_enumeration",
+        rule="union of the C05 modification corpus (10 base files), the C06 key set and the C11 malformed corpus; one evaluation = verify and decrypt of the same (file,key); "
+             "oracle: equal results, verify leaves its output stream empty, input files byte-identical afterwards",
+        assumptions=ASSUME_FILE),
+})
+
+
+ASSUME_LIB = [
+    "reference = OpenSSL libcrypto / RFC 4648 written out in the harness; reference self-tested against published vectors at start",
+    "structure (lengths, residues, refill boundaries, carries, table entries, byte positions) is enumerated completely within the stated bounds; data values come from small alphabets (DESIGN.md section 6)",
+]
+
+
+def c07_plan(tier):
+    L = [dict(defs=defs(2, 2), args=dict(mode="c07", sub="string", bufsz=2, hbufsz=2), nshards=8)]
+    for hb in (1, 2, 3):
+        L.append(dict(defs=defs(2, hb), args=dict(mode="c07", sub="file", bufsz=2, hbufsz=hb), nshards=8))
+    if tier == "thorough":
+        L.append(dict(defs=defs(2, 2), sanitize="none", args=dict(mode="c07", sub="big", bufsz=2, hbufsz=2), nshards=12))
+    return L
+
+
+def lib_plan(mode, sanitize="address", shards=16):
+    def plan(tier):
+        return [dict(defs=defs(2, 2), sanitize=sanitize, args=dict(mode=mode, bufsz=2, hbufsz=2), nshards=shards)]
+    return plan
+
+
+SPECS.update({
+    "C07": dict(
+        harness="cryptolib", src=["harness/cryptolib.cpp"], plan=c07_plan, level="exploration",
+        rule="getStringHash: every length 0..320 x {zeros, FF, counter, 0x80 at every single position}; getFileHash through filebuffer64 built with refill size 64/128/192 bytes: every length 0..3R+65, "
+             "with and without the 64-byte prefix block, start offsets 0..3; thorough adds 2^29-1, 2^29, 2^29+1, 2^29+57 bytes through a buffer64 subclass (bit counter crossing 2^32); "
+             "all three algorithms; oracle = libcrypto digest; distinct = (entry point, algorithm, length mod 64, blocks/refills, prefix)",
+        assumptions=ASSUME_LIB),
+    "C08": dict(
+        harness="cryptolib", src=["harness/cryptolib.cpp"], plan=lib_plan("c08"), level="exploration",
+        rule="hmac::gethmac on memfd files: 5 keys x 3 hash modes x every message length 0..3R+65 x start positions (quick: 10 incl. 0,47,48,49,64; thorough: 0..80); cmphmac with the right tag and with every single-bit-flipped tag; "
+             "files written by execute_encrypt (T in {1,2,3,4,5,16}, 3 cipher modes, 3 hash modes, lengths 0..2*chunk+17): bytes [10,10+hlen) == HMAC of [48,EOF), [10+hlen,48) zero; oracle = OpenSSL HMAC()",
+        assumptions=ASSUME_LIB + ASSUME_FILE[:1]),
+    "C09": dict(
+        harness="cryptolib", src=["harness/cryptolib.cpp"], plan=lib_plan("c09", sanitize="none"), level="exploration",
+        rule="tables exhaustively (S-box and inverse from the GF(2^8) definition, every log/antilog product the rounds can form for the 7 MixColumns constants x 256 values, Rcon); every (key, block) that differs from a base pair "
+             "in one key byte (16x256) and one block byte (16x256) - quick: FIPS-197 C.1 base fully + 3 other bases on a 1/5 lattice, thorough: 4 bases fully = 67M pairs; all 128x128 single-bit pairs on 4 bases; "
+             "encrypt == libcrypto, decrypt(encrypt(x)) == x, decrypt == libcrypto; distinct = (base, key byte position)",
+        assumptions=ASSUME_LIB + ["bounded-alphabet claim: 2^256 pairs cannot be enumerated; every table entry, byte position and single-byte data path is"]),
+    "C10": dict(
+        harness="cryptolib", src=["harness/cryptolib.cpp"], plan=lib_plan("c10", sanitize="none"), level="exploration",
+        rule="objects from AesFactory::createCryMaster: 5 modes x 3 keys x 20 IVs (last k bytes 0xFF for k=0..16: counter carry through every depth, + 3 others) x ALL block sequences of length 0..4 over a 3-block alphabet (121), "
+             "plus streams of 300 and 65,539 blocks; encryptor == EVP (no padding), decryptor(encryptor output) == input, decryptor == EVP decrypt; distinct = (mode, IV kind, stream length class)",
+        assumptions=ASSUME_LIB),
+    "C16": dict(
+        harness="cryptolib", src=["harness/cryptolib.cpp"], plan=lib_plan("c16"), level="exploration",
+        rule="encoder: all 2^24 three-byte groups, all 2^16/2^8 tails, lengths 0..40, NUL terminator and no overrun; decoder: all 64^4 four-symbol groups (quick: 64x{3 second symbols}x64^2) and all padded tails, decode(encode(x))==x; "
+             "validator: all 2^24 placements of '=' in a 24-character string, every byte value at every position of 3 canonical strings, all two-position class deviations, every length 0..40, all 65x65 endings; "
+             "two-sided oracle: canonical encodings of 16-byte values MUST be accepted, anything that is not 22 symbols + '==' MUST be rejected, non-zero unused trailing bits are don't-care; every accepted string is decoded into a 16-byte heap buffer under ASan; printed keys for every byte position x value are accepted and decode to the same key",
+        assumptions=ASSUME_LIB),
+})
+
+
 def run(pid, tier, replay=None):
     return casecheck.run_spec(pid, tier, SPECS[pid], replay=replay)
